@@ -62,9 +62,24 @@ func RootModule(m Meta) *Module {
 	return candidate.(*Module)
 }
 
-// Module a definition was defined in, not the module it ended up in.
-// this is useful for resolving typedefs and uses
+// Module a definition was defined in, not the module it ended up in. A definition
+// written in a submodule is defined in the module the submodule belongs to: that is
+// the module whose name and namespace the definition has in data.
 func OriginalModule(m Meta) *Module {
+	mod := definingModule(m)
+	for mod.belongsTo != nil {
+		parent, valid := mod.parent.(*Module)
+		if !valid || parent == mod {
+			break
+		}
+		mod = parent
+	}
+	return mod
+}
+
+// definingModule is the module or submodule whose text holds a definition.
+// this is useful for resolving typedefs and uses
+func definingModule(m Meta) *Module {
 	for {
 		if mod, isMod := m.(*Module); isMod {
 			return mod
@@ -86,7 +101,7 @@ func splitIdent(ident string) (string, string) {
 }
 
 func findModuleAndIsExternal(y Definition, prefix string) (*Module, bool, error) {
-	m := OriginalModule(y)
+	m := definingModule(y)
 	if prefix == "" || m.Prefix() == prefix {
 		return m, false, nil
 	}
